@@ -36,10 +36,10 @@ type proofTag = cose.Sign1Tag[fdo.VerifOVHProof, []byte]
 
 type c01Scenario struct {
 	what     string
-	proof    func(p *proofTag) bool                  // alter 61 through its structure (false: n/a)
-	proofRaw func(b []byte) []byte                   // alter 61 bytes
-	entry    func(i int, e *fdo.VerifOVEntry) bool   // alter 63 number i through its structure
-	entryRaw func(i int, b []byte) []byte            // alter 63 bytes
+	proof    func(p *proofTag) bool                // alter 61 through its structure (false: n/a)
+	proofRaw func(b []byte) []byte                 // alter 61 bytes
+	entry    func(i int, e *fdo.VerifOVEntry) bool // alter 63 number i through its structure
+	entryRaw func(i int, b []byte) []byte          // alter 63 bytes
 	to1d     func(t *cose.Sign1[protocol.To1d, []byte]) *cose.Sign1[protocol.To1d, []byte]
 	withheld bool // a proof listed in the property is withheld: must abort before 64
 }
@@ -69,7 +69,7 @@ type c01Env struct {
 	w      *lab.World
 	st     *lab.MemState
 	a, b   *lab.Device
-	cProof *proofTag            // a 61 for a device of another manufacturer (structure donor)
+	cProof *proofTag // a 61 for a device of another manufacturer (structure donor)
 	cEnts  []fdo.VerifOVEntry
 	bOV    *fdo.Voucher
 	blob   *cose.Sign1[protocol.To1d, []byte]
